@@ -27,3 +27,16 @@ func simYield() {
 		SimYield()
 	}
 }
+
+// SimAccess, when non-nil, is told about reads and writes of map-typed struct
+// fields of this package (p is a pointer to the field, or the map itself for
+// an inner map). The simulator's build step inserts the calls, so that
+// overlapping ShortestRoute calls that touch the same map, one of them
+// writing, can be recognised although the simulation runs one at a time.
+var SimAccess func(p interface{}, write bool, site string)
+
+func simAccess(p interface{}, write bool, site string) {
+	if SimAccess != nil {
+		SimAccess(p, write, site)
+	}
+}
